@@ -35,14 +35,14 @@ def set_int_weights(model, seed):
     model.load_state_dict(sd)
 
 
-def build(s, copied):
+def build(s, copied, shift=0):
     td = s["tdim"]
     T = tp.spaces.Rn("t", td)
     Fv = tp.spaces.R1("f")
     U = tp.spaces.Rn("u", s["dim"])
     Fs = tp.spaces.FunctionSpace(tp.domains.Interval(tp.spaces.R1("s"), 0.0, 4.0), Fv)
     m = s["m"]
-    disc = tp.samplers.DataSampler(Points(torch.arange(1, m + 1, dtype=torch.float64).reshape(m, 1), tp.spaces.R1("s")))
+    disc = tp.samplers.DataSampler(Points(torch.arange(1 + shift, m + 1 + shift, dtype=torch.float64).reshape(m, 1), tp.spaces.R1("s")))
     # several hidden layers: a LIST of different activations (the fast and the plain trunk must apply them alike)
     acts = Square() if len(s["th"]) < 2 else [Square()] + [Ident()] * (len(s["th"]) - 1)
     trunk = tp.models.FCTrunkNet(T, hidden=tuple(s["th"]), activations=acts, trunk_input_copied=copied)
@@ -113,6 +113,18 @@ def run_one(s):
             ref = plain(x, fvals(cur, m)).as_tensor.detach()
             used = cur if torch.equal(o, ref) else -1
             tr["hist"].append({"fixed": cur, "used": used})
+        # (2a) ONE FunctionSet object given to two networks whose branch nets discretise at different points of the same number
+        #      (s = 1..m and s = 2..m+1): each network sees the functions at ITS points
+        other = build(s, True, shift=1)[0]
+        other.load_state_dict(fast.state_dict())
+        ids2 = [1, 2]
+        ps2 = tp.samplers.DataSampler(Points(torch.tensor([[float(k)] for k in ids2], dtype=torch.float64), tp.spaces.R1("k")))
+        fs2 = tp.domains.CustomFunctionSet(Fs, ps2, lambda k, s: (torch.remainder(k, 3) - 1) * s + (torch.remainder(2 * k, 5) - 2))
+        for net, sh in ((fast, 0), (other, 1), (fast, 0)):
+            o = net(x, fs2).as_tensor.detach()
+            vals = torch.stack([torch.tensor([[float(((f % 3) - 1) * k + ((f * 2) % 5 - 2))] for k in range(1 + sh, m + 1 + sh)], dtype=torch.float64) for f in ids2])
+            ref = net(x, vals).as_tensor.detach()
+            tr["hist"].append({"fixed": 10 + sh, "used": 10 + sh if torch.equal(o, ref) else -1})
         # (2b) the SAME tensor object as explicit branch input, evaluated without gradient tracking: after its content was
         #      replaced in place, and after the weights were replaced, the output is that of the current content / weights
         obj = fvals(1, m).clone()
@@ -141,7 +153,7 @@ def run_one(s):
             out = model(x, fb).as_tensor
             res = {"out": ints(out.detach())}
             comp = out[..., :1]
-            if not copied3:
+            if True:          # (also with the trunk points repeated for every function: derivatives w.r.t. each copy)
                 g = torch.autograd.grad(comp.sum(), x.as_tensor, create_graph=True)[0]
                 res["dx"] = ints(g.detach())
                 lap = 0
@@ -165,6 +177,7 @@ def run_one(s):
         tr["fast3"] = probe(fast, True)
         p3 = probe(plain, True)
         tr["plain"]["out3"], tr["plain"]["pgrad3"] = p3["out"], p3["pgrad"]
+        tr["plain"]["dx3"], tr["plain"]["lap3"], tr["plain"]["pgrad_d3"] = p3["dx"], p3["lap"], p3["pgrad_d"]
     except Exception as e:
         import traceback
         tr["exc"] = type(e).__name__
